@@ -4,11 +4,15 @@ use serde_json::Value;
 
 pub mod c08;
 pub mod c09;
+pub mod c13;
+pub mod c14;
 
 pub fn run(cfg: &Cfg) -> Option<Report> {
     Some(match cfg.prop.as_str() {
         "C08" => c08::run(cfg),
         "C09" => c09::run(cfg),
+        "C13" => c13::run(cfg),
+        "C14" => c14::run(cfg),
         _ => return None,
     })
 }
@@ -17,6 +21,8 @@ pub fn replay(cfg: &Cfg, case: &Value) -> Option<Report> {
     Some(match cfg.prop.as_str() {
         "C08" => c08::replay(cfg, case),
         "C09" => c09::replay(cfg, case),
+        "C13" => c13::replay(cfg, case),
+        "C14" => c14::replay(cfg, case),
         _ => return None,
     })
 }
